@@ -135,6 +135,9 @@ func NewWorld() (*World, error) {
 			sdk.NewCoin("a-b.c_d:e", math.NewInt(1_000_000_000)), // exotic but valid native denom (C16)
 			sdk.NewCoin("uusdcx", math.NewInt(1_000_000_000)),
 			sdk.NewCoin("UUSDC", math.NewInt(1_000_000_000)),
+			// a VOUCHER held on Noble (hash of a longer trace) that Noble once sent out over this channel: a counterparty
+			// that names it by its hash instead of its full trace makes ICS-20 release it (C16)
+			sdk.NewCoin(denomHashedVoucher, math.NewInt(1_000_000_000)),
 		)
 		if e.Equals(w.Escrow0) {
 			coins = coins.Add(sdk.NewCoin(denomBIG, big256))
